@@ -14,7 +14,7 @@ class EnableJinja2AutoescapeTransformer(LibcstResultTransformer):
 
     def on_result_found(self, original_node, updated_node):
         new_args = self.replace_args(
-            original_node,
+            updated_node,
             [NewArg(name="autoescape", value="True", add_if_missing=True)],
         )
         return self.update_arg_target(updated_node, new_args)
